@@ -71,18 +71,22 @@ def shebang_bytes(x: bytes, eol: int, cookie: int, preserve: bool) -> bool:
     pre: len(x) <= 4
     pre: 0 <= eol <= 2
     pre: 0 <= cookie <= 2
-    pre: cookie == 1 or all(c < 128 for c in x)
     pre: all(c != 10 and c != 13 for c in x)
     post: _
     """
-    # source = '#!' + x + newline + cookie line; x holds no line break so the first line is '#!' + x
+    # source = '#!' + x + newline + cookie line; x holds no line break so the first line is '#!' + x.  Every byte value is
+    # allowed: the interpreter accepts undecodable bytes in a comment line, so minify() must not raise on them.
     nl = [b'\n', b'\r\n', b'\r'][eol]
     src = b'#!' + x + nl + COOKIES[cookie] + b'pass\n'
     out = _run(src, preserve)
     if not preserve:
         return out == 'P'
-    line = '#!' + ''.join([chr(c) for c in x])   # latin-1 and ASCII both map byte -> same code point
-    return _is_line_then(out, line, 'P')
+    ascii_only = all(c < 128 for c in x)
+    if cookie == 1 or ascii_only:
+        line = '#!' + ''.join([chr(c) for c in x])   # latin-1 and ASCII both map byte -> same code point
+        return _is_line_then(out, line, 'P')
+    # UTF-8 (default or declared) with non-ASCII bytes: the decoded line is CPython's business; the shape is ours
+    return out[:2] == '#!' and out[-2:] == '\nP' and '\n' not in out[:-2] and '\r' not in out[:-2]
 
 
 def bytes_text_agree(b: bytes, preserve: bool) -> bool:
@@ -136,8 +140,12 @@ def public_shebang_bytes(x, eol, cookie, preserve):
         out = python_minifier.minify(src, **dict(ALL_OFF, preserve_shebang=preserve))
     except Exception as e:  # noqa
         return {'violated': True, 'detail': 'minify(%r) raised %r' % (src, e)}
-    line = '#!' + x.decode('latin-1')
-    bad = (not _is_line_then(out, line, 'x=1')) if preserve else out != 'x=1'
+    if cookie == 1 or all(c < 128 for c in x):
+        line = '#!' + x.decode('latin-1')
+        bad = (not _is_line_then(out, line, 'x=1')) if preserve else out != 'x=1'
+    else:
+        line = '#!<decoded>'
+        bad = (not (out.startswith('#!') and out.endswith('\nx=1'))) if preserve else out != 'x=1'
     return {'violated': bad, 'detail': 'minify(%r) -> %r, expected %r' % (src, out, (line + '<newline>' if preserve else '') + 'x=1')}
 
 
